@@ -51,6 +51,11 @@ CHECKS = {
    text="Stateless exploration under the controlled tokio scheduler of (i) two real Mux endpoints over an in-memory pipe with tiny limits (frame 8, buffer 32, 3 frames): scenario 1 forces reuse of a single reusable stream (server reads 10 of 20 bytes and drops the sub-stream; the next sub-stream must carry exactly its own bytes, EOF only for the counterpart), scenario 2 has three clients opening concurrently on a capability with limits 2/3 (tagged echo; simultaneously open sub-streams <= 2; no mixing); a scheduler-idle state with unfinished client/server tasks is a deadlock; (ii) one real Mux against a scripted raw peer that ignores flow control (floods DATA frames of 3/8/20 bytes while the application consumes 0/5/17 bytes; DATA before OPEN): bytes pulled from the transport beyond what the application consumed stay within read_buffer_size / read_frame_count accounting. All schedules within deviation bound 2 (quick, time-capped: the completed bound is reported) / 3 (thorough).",
    note="The mux runs ~15 internal tasks (600-900 choice points per execution), so bound 2 is ~10^6 executions per scenario; when the time cap is hit the evidence reports the completed bound (1) and `exhaustive: false`. More than 3 concurrent streams and head-of-line blocking are outside the scope.",
    technique="stateless model checking of the implementation under a controlled scheduler: exhaustive enumeration of task interleavings (deviation-bounded) of small client/server drivers and of a scripted adversarial peer, against per-stream byte-stream reference models and buffer accounting"),
+ "C16": dict(
+   category="model_checking", design="DESIGN.md §4 C16",
+   text="(a1) every operation sequence send(m)|recv of length <= 4 (quick) / 6 (thorough) over a 6-message alphabet (two senders, two kinds, views 1-3, one bad signature) on the real create_input_channel(), compared after every step with the stated rule on a Vec (one pending message per sender and kind, the highest view, FIFO among retained, dropped only if invalid or superseded); (a2) two REAL sender threads interleaved at every lock acquisition of the underlying tokio watch channel (thread-point hook in the vendored tokio: only one thread runs at a time, the harness picks who continues at every point): ALL interleavings of 8 message pairs, the final buffer must equal the rule's result for one of the two sequential orders (linearizability); (b) explicit-state search over the real replica (bftsim L1, minimal alphabet) with a flood of validly signed commit / timeout votes for views up to u64::MAX from a validator of weight <= f interleaved with ordinary inputs: after every step the four vote caches stay within the committee-size bound and every cached partial certificate sits at some validator's latest view.",
+   note="Thread interleavings are explored at the granularity of watch-channel lock acquisitions (the channel has no other shared state); the L1 part is depth-bounded in the quick tier (reported).",
+   technique="exhaustive enumeration of bounded operation sequences against a reference model; exhaustive thread-interleaving exploration at lock acquisitions with a linearizability oracle; explicit-state search over the real replica with a cache-size invariant"),
  "C17": dict(
    category="model_checking", design="DESIGN.md §4 C17, §2.2",
    text="Stateless exploration on the real scope::run! under the controlled tokio scheduler (vendored tokio 1.45.1 + verif_sched patch: the explorer picks the next runnable task and every select! start branch): every program of a generated family of task trees (3360 programs quick / ~40k thorough: root body x up to 2-3 children, main/background, bodies {Ok, Err, panic, wait-for-cancel then Ok/Err}, a child that spawns a grandchild or runs a nested scope, caller context plain / cancelled while running / deadline passing on the manual clock / already cancelled) x every schedule within deviation bound 2 (quick) / 3 (thorough). Oracle over the event log: run! returns after the last task end; Ok iff nobody failed; otherwise the error of the first failing task in event order; any panic is re-raised (after all tasks ended); an idle scheduler while a cancellation is due (failure, all main tasks done, caller cancelled) is a lost-cancellation deadlock.",
